@@ -161,7 +161,7 @@ class Reproduce(Stream):
         shutil.rmtree(getattr(self, "tmp", ""), ignore_errors=True)
 
     def generate(self, rng):
-        case = SS.gen_universe(rng, rng.choice(["dag-free", "dag-free", "dag", "dag", "extras", "cyclic"]))
+        case = SS.gen_universe(rng, rng.choice(["dag-free", "dag-free", "dag", "dag", "extras", "cyclic", "umbrella-extra", "late-extra-cycle"]))
         case["constraints"] = []
         case["remove_constraints"] = False
         names = list(case["universe"])
